@@ -113,6 +113,21 @@ func NewTimeBucketInfo(tf utils.Timeframe, path, description string, year int16,
 	return f
 }
 
+// CheckStorable reports whether the data file header can hold this TimeBucketInfo faithfully.
+// Element names are stored in fixed elementNameHeaderBytes-byte slots and NUL-trimmed when the header
+// is read back, so a longer name (or one that starts or ends with a NUL byte) would come back changed.
+func (f *TimeBucketInfo) CheckStorable() error {
+	for _, name := range f.GetElementNames() {
+		if len(name) > elementNameHeaderBytes {
+			return fmt.Errorf("column name %q is longer than %d bytes", name, elementNameHeaderBytes)
+		}
+		if len(name) > 0 && (name[0] == 0 || name[len(name)-1] == 0) {
+			return fmt.Errorf("column name %q starts or ends with a NUL byte", name)
+		}
+	}
+	return nil
+}
+
 func CreateShapesForTimeBucketInfo(dsv []DataShape) (elementTypes []EnumElementType, elementNames []string) {
 	/*
 		Takes a datashape array and returns elementTypes and elementNames
